@@ -339,8 +339,8 @@ def Lane.commitStaged (tcp : Bool) (c : Lane) (sp : Staged) : Lane :=
   | none => c.sealAllOpen.addVerbatim sp.pkt
   | some info => c.commitParsed tcp sp.pkt info
 
-/-- `flushSlot`: header patching + the `WriteGSO` call. -/
-def flushSlot (tcp : Bool) (s : Slot) : Wr :=
+/-- `flushSlot`, first half: the superpacket header patched in place in `rawPkt[:hdrLen]`. -/
+def flushHdr (tcp : Bool) (s : Slot) : Bytes :=
   let hdr := slice s.rawPkt 0 s.hdrLen
   let total := s.hdrLen + s.totalPay
   let l4Len := total - s.ipHdrLen
@@ -353,7 +353,11 @@ def flushSlot (tcp : Bool) (s : Slot) : Wr :=
   let hdr := if tcp then hdr else putU16 hdr (s.ipHdrLen + 4) l4Len
   let psum := pseudoSum s.isV6 hdr (if tcp then batch_ipProtoTCP else batch_ipProtoUDP) l4Len
   let csumOff := if tcp then s.ipHdrLen + 16 else s.ipHdrLen + 6
-  let hdr := putU16 hdr csumOff (foldOnceNoInvert psum)
+  putU16 hdr csumOff (foldOnceNoInvert psum)
+
+/-- `flushSlot`: header patching + the `WriteGSO(hdr[:ipHdrLen], hdr[ipHdrLen:], payIovs, proto)` call. -/
+def flushSlot (tcp : Bool) (s : Slot) : Wr :=
+  let hdr := flushHdr tcp s
   Wr.gso (slice hdr 0 s.ipHdrLen) (hdr.drop s.ipHdrLen) s.payIovs tcp
 
 /-- one slot at `Flush` -/
